@@ -267,6 +267,31 @@ def check_parse(ctx, rng, kind, ver, name, cls, w):
             ctx.violation("registered-type-round-trip", "instance of %r does not survive serialize/parse" % name, dict(w, input=d))
     except family() as e:
         ctx.violation("registered-type-round-trip", "instance of %r: round trip raised %s" % (name, type(e).__name__), dict(w, input=d, exception=repr(e)))
+    # a marking definition pairs a registered definition type with an object of exactly its class, also when the definition is
+    # given as a library object
+    if kind == "marking":
+        import stix2
+        mod = stix2.v20 if ver == "2.0" else stix2.v21
+        for lab, dt, dfn, want in (("own class", name, lambda: cls(prop_one="v"), "accepted"),
+                                   ("statement object under the custom type", name, lambda: mod.StatementMarking("s"), "refused"),
+                                   ("custom object under 'statement'", "statement", lambda: cls(prop_one="v"), "refused")):
+            ctx.ev()
+            ctx.count("marking_pairings")
+            try:
+                with warnings.catch_warnings():
+                    warnings.simplefilter("ignore")
+                    md = mod.MarkingDefinition(definition_type=dt, definition=dfn())
+                    text = md.serialize()
+                got = "accepted"
+            except family():
+                got = "refused"
+            if got != want:
+                ctx.violation("marking-type-and-definition-class-mismatch-accepted" if want == "refused" else "registered-marking-refused",
+                              "%s MarkingDefinition(definition_type=%r, definition=<%s>) was %s" % (ver, dt, lab, got), dict(w, pairing=lab))
+            elif got == "accepted":
+                st9, r9 = parse_outcome(json.loads(text), (lambda o_: o_["definition"]), allow_custom=False, version=ver)
+                if st9 != "class" or type(r9) is not cls:
+                    ctx.violation("registered-type-round-trip", "a marking definition of the registered type %r built from an object does not parse back to its class" % name, dict(w, text=text[:500]))
     # a name registered as a marking or an extension is not thereby a top-level object type (category-exact lookup)
     if kind in ("marking", "extension") and looks_up("object", ver, name) is None and looks_up("observable", ver, name) is None:
         top = {"type": name, "id": "%s--%s" % (name, V.uuid_text(rng, 4)), "created": "2020-01-01T00:00:00.000Z", "modified": "2020-01-01T00:00:00.000Z", "prop_one": "v"}
